@@ -144,6 +144,66 @@ where
                     }
                 }
             }
+            // ---- the coin a caller draws its query positions from, after the commit phase, depends on EVERY commitment
+            // the channel delivered - also on surplus ones (a proof built for a deeper schedule carries one layer and one
+            // commitment more than the verifier's options define): the verifier either refuses the transcript or has
+            // absorbed all of it
+            {
+                let positions = vec![1usize, cfg.n / 2 + 1];
+                let coin_after = |proof: fri::FriProof, coms: Vec<H::Digest>| -> Result<Result<Vec<u8>, String>, pan::PanicRec> {
+                    let opts = opts.clone();
+                    pan::catch(move || {
+                        let mut vch = DefaultVerifierChannel::<E, H>::new(proof, coms, cfg.n, cfg.k).map_err(|e| format!("channel: {e}"))?;
+                        let mut coin = <DefaultRandomCoin<H> as RandomCoin>::new(&[]);
+                        let _verifier = FriVerifier::<E, _, H, DefaultRandomCoin<H>>::new(&mut vch, &mut coin, opts, cfg.n / cfg.blowup - 1).map_err(|e| format!("{:?}", e))?;
+                        let ints = coin.draw_integers(4, cfg.n, 0).map_err(|e| format!("{:?}", e))?;
+                        let x: E = coin.draw().map_err(|e| format!("{:?}", e))?;
+                        let mut o = utils::Serializable::to_bytes(&x);
+                        o.extend(ints.iter().flat_map(|v| (*v as u64).to_le_bytes()));
+                        Ok(o)
+                    })
+                };
+                let mut transcripts: Vec<(&str, FriOptions)> = vec![("the schedule of the verifier's options", opts.clone())];
+                if (cfg.rem_deg + 1) % cfg.k == 0 && (cfg.rem_deg + 1) / cfg.k >= 1 {
+                    let deeper = Cfg { rem_deg: (cfg.rem_deg + 1) / cfg.k - 1, ..cfg };
+                    if deeper.well_formed() && deeper.num_layers() == cfg.num_layers() + 1 {
+                        transcripts.push(("one layer and one commitment more than the verifier's options define", FriOptions::new(cfg.blowup, cfg.k, deeper.rem_deg)));
+                    }
+                }
+                for (tname, popts) in transcripts {
+                    let mut channel = DefaultProverChannel::<E, H, DefaultRandomCoin<H>>::new(cfg.n, positions.len());
+                    let mut prover = FriProver::<E::BaseField, E, _, H>::new(popts);
+                    prover.build_layers(&mut channel, evals.clone());
+                    let proof = prover.build_proof(&positions);
+                    let commitments: Vec<H::Digest> = channel.layer_commitments().to_vec();
+                    n_cases += 1;
+                    let base = match coin_after(proof.clone(), commitments.clone()) {
+                        Ok(Ok(b)) => b,
+                        Ok(Err(_)) => {
+                            out.class("surplus layer refused by the verifier before the query phase");
+                            continue;
+                        },
+                        Err(p) => {
+                            out.violation(format!("{nm}: FRI verifier construction panics ({})", p.class()), json!({"config": format!("{:?}", cfg), "transcript": tname}));
+                            continue;
+                        },
+                    };
+                    out.class(&format!("coin dependency checked on: {tname}"));
+                    for i in 0..commitments.len() {
+                        let mut coms = commitments.clone();
+                        coms[i] = H::hash(b"another message");
+                        n_cases += 1;
+                        match coin_after(proof.clone(), coms) {
+                            Ok(Ok(alt)) if alt == base => out.violation(
+                                format!("{nm}: the public coin after the FRI commit phase does not depend on a commitment the verifier accepted"),
+                                json!({"config": format!("{:?}", cfg), "transcript": tname, "commitment_index": i, "commitments": commitments.len()}),
+                            ),
+                            Ok(_) => {},
+                            Err(p) => out.violation(format!("{nm}: FRI verifier construction panics ({})", p.class()), json!({"config": format!("{:?}", cfg), "transcript": tname, "commitment_index": i})),
+                        }
+                    }
+                }
+            }
             out.evals(n_cases);
             out.nontrivial_n(honest_ok.max(1));
             out.class(&format!("FRI schedule with {} layer(s), remainder of {} coefficient(s)", cfg.num_layers(), (cfg.n / cfg.k.pow(cfg.num_layers() as u32)) / cfg.blowup));
